@@ -340,7 +340,11 @@ func initPromise() {
 		"is_resolved",
 		func(vm *Thread, args []value.Value) (value.Value, value.Value) {
 			self := (*Promise)(args[0].Pointer())
-			return value.BoolVal(self.IsResolved()), value.Undefined
+			// the promise may be settled by a worker thread at this very moment
+			self.m.Lock()
+			resolved := self.IsResolved()
+			self.m.Unlock()
+			return value.BoolVal(resolved), value.Undefined
 		},
 	)
 }
